@@ -5,6 +5,8 @@ import BigtreeProofs.Lemmas.PathsSet
 import BigtreeProofs.Lemmas.PathsInsert
 import BigtreeProofs.Lemmas.PathsLoop
 import BigtreeProofs.Lemmas.PathsNoDup
+import BigtreeProofs.Lemmas.PathsOrder
+import BigtreeProofs.Lemmas.PathsFold
 /-!
 # C05 — path-based constructors build exactly the prefix closure of the given paths
 
@@ -129,5 +131,60 @@ example : SepFree '/' (.node 0 ['a'] [] [.node 1 ['x', 'a'] [] [.node 2 ['b'] []
   intro q hq x hx
   simp [paths, pathsL] at hq
   rcases hq with rfl | rfl | rfl <;> simp at hx <;> rcases hx with h | h | h <;> subst_vars <;> decide
+
+/-- Attributes end up on exactly the nodes whose path was given with them: after one call every
+    node of the result is either an old node — attributes unchanged, or updated with the given
+    ones if it is the addressed node — or a new node, which carries no attributes unless it is
+    the addressed node (then: the given ones, see `new_node_attrs`). -/
+theorem attrs_exact (treeSep : Str) (t : Tree) (fresh : Nat) (branch : List Str) (attrs : Attrs)
+    (t' : Tree) (ad : Addr) (fr' : Nat) (hs : SibUnique t)
+    (h : addComps treeSep true t fresh branch attrs = .ok (t', ad, fr')) :
+    ∀ b n', nodeAt b t' = some n' →
+      (∃ n, nodeAt b t = some n ∧ n'.attrs = if b = ad then updateAttrs n.attrs attrs else n.attrs) ∨
+      (nodeAt b t = none ∧ n'.attrs = if b = ad then updateAttrs attrs attrs else []) :=
+  addComps_attrs treeSep t fresh branch attrs t' ad fr' hs h
+
+/-- a dictionary has pairwise different keys: a new addressed node carries exactly the given attributes -/
+theorem new_node_attrs (a : Attrs) (h : (a.map Prod.fst).Nodup) : updateAttrs a a = a :=
+  updateAttrs_self a h
+
+/-- Null values are dropped exactly in the row (DataFrame) constructors, and the `name` column is
+    never an attribute; the dictionary constructor drops only `name`. -/
+theorem nulls_dropped_in_rows (a : Attrs) (kv : Str × Val) :
+    (kv ∈ filterRow a ↔ kv ∈ a ∧ kv.2 ≠ .null ∧ kv.1 ≠ "name".toList) ∧
+    (kv ∈ dropName a ↔ kv ∈ a ∧ kv.1 ≠ "name".toList) := by
+  simp [filterRow, dropName, List.mem_filter]
+
+example : filterRow [(['v'], .int 1), (['w'], .null), ("name".toList, .str ['x'])] = [(['v'], .int 1)] := by rfl
+
+/-- `list_to_tree` on well-formed, pairwise different path strings (any leading/trailing separators,
+    both duplicate settings): the node paths are exactly the prefixes of the given paths, each once;
+    and the children of every node are ordered by first appearance — their paths form a sublist of
+    `firstSeen`, the duplicate-free list of all prefixes in order of first appearance.
+    With duplicates disallowed all names of the result are distinct. -/
+theorem children_first_appearance (c : Char) (dupOk : Bool) (items : List Item) (hwf : ∀ it ∈ items, it.Wf c)
+    (hat : ∀ it ∈ items, it.attrs = []) (hnd : (items.map (·.render c)).Nodup) (t : Tree)
+    (h : listToTree [c] dupOk (items.map (·.render c)) = .ok t) :
+    (firstSeen (items.map (·.branch))).Nodup ∧
+    (∀ q, q ∈ paths t ↔ q ∈ firstSeen (items.map (·.branch))) ∧ (paths t).Nodup ∧
+    (∀ b n, nodeAt b t = some n →
+      (kidPaths (namesAlong b t) n).Sublist (firstSeen (items.map (·.branch)))) ∧
+    (dupOk = false → (names t).Nodup) := by
+  obtain ⟨h1, h2, h3, h4, h5⟩ := listToTree_spec c dupOk items hwf hat hnd t h
+  exact ⟨h2, h3, nodup_paths t h1, h4, h5⟩
+
+/-- non-vacuity: `["a/c/x", "/a/b/", "a/c/y"]` — `c` before `b`, `x` before `y` -/
+example : listToTree ['/'] true ["a/c/x".toList, "/a/b/".toList, "a/c/y".toList] =
+    .ok (.node 0 ['a'] [] [.node 1 ['c'] [] [.node 2 ['x'] [] [], .node 4 ['y'] [] []], .node 3 ['b'] [] []]) := by
+  rfl
+
+example : firstSeen [[['a'], ['c'], ['x']], [['a'], ['b']], [['a'], ['c'], ['y']]] =
+    [[['a']], [['a'], ['c']], [['a'], ['c'], ['x']], [['a'], ['b']], [['a'], ['c'], ['y']]] := by rfl
+
+example : (⟨['/'], [['a'], ['b']], ['/'], []⟩ : Item).Wf '/' := by
+  refine ⟨by simp, by simp, by simp, ?_⟩
+  intro x hx
+  simp at hx
+  rcases hx with rfl | rfl <;> simp
 
 end C05
